@@ -51,6 +51,8 @@ func runC16(t *testing.T, seed uint64, m *Mask) *Report {
 	// some checkers name the session after the presented credentials before they decide (the auth plugin
 	// hands SetID to the checker for that): a connection refused afterwards must still vanish from the index
 	setID := r.Chance(0.4)
+	// and some servers tag every connection in an accept hook placed before the checker
+	tagFirst := r.Chance(0.3)
 	n := 1 + r.Intn(5)
 	firsts := []string{"auth_good", "auth_good", "auth_bad", "auth_malformed", "auth_undecodable", "call", "push", "reply", "auth_reply", "badtype", "garbage", "trunc", "nothing"}
 	var clients []*c16Client
@@ -69,7 +71,7 @@ func runC16(t *testing.T, seed uint64, m *Mask) *Report {
 		clients = append(clients, c)
 	}
 	rep := &Report{NOps: len(clients)}
-	rep.Cell = fmt.Sprintf("%s,checker=%s,setid=%v", proto, checker, setID)
+	rep.Cell = fmt.Sprintf("%s,checker=%s,setid=%v,tagfirst=%v", proto, checker, setID, tagFirst)
 
 	out := world.Run(t, opt, func(e *world.Env) {
 		e.AllowUnknownArgs = true
@@ -105,7 +107,11 @@ func runC16(t *testing.T, seed uint64, m *Mask) *Report {
 			return nil, erpc.NewStatus(403, "wrong credentials", info)
 		})
 		rec := &world.Recorder{PName: "rec", Env: e}
-		srv := e.NewPeer("srv", erpc.PeerConfig{}, chk, rec)
+		plugins := []erpc.Plugin{chk, rec}
+		if tagFirst {
+			plugins = append([]erpc.Plugin{&c16Tagger{}}, plugins...)
+		}
+		srv := e.NewPeer("srv", erpc.PeerConfig{}, plugins...)
 		rt := e.RegisterStd(srv)
 		pf := world.ProtoFunc(proto)
 		e.Serve(srv, "10.9.0.1:9000", pf)
@@ -298,7 +304,9 @@ func runC16(t *testing.T, seed uint64, m *Mask) *Report {
 				if len(stages) > 0 {
 					e.Fail("C16/message-hook-on-unauthenticated-connection", "%s: stages %v ran", info, stages)
 				}
-				if listed {
+				// a client that never sends anything keeps its exchange pending for ever: it is neither accepted nor
+				// refused, and a hook that names sessions has listed it - not what the property is about
+				if listed && !(c.kind == "raw" && c.first == "nothing") {
 					e.Fail("C16/unauthenticated-connection-listed", "%s: the connection is listed as a session at quiescence", info)
 				}
 				if c.kind == "raw" {
@@ -334,4 +342,13 @@ func runC16(t *testing.T, seed uint64, m *Mask) *Report {
 	}
 	rep.Sample = rep.Cell + ": " + strings.Join(sm, " ")
 	return finish(rep, out)
+}
+
+// c16Tagger is an accept hook that gives every connection an id before the auth checker runs.
+type c16Tagger struct{}
+
+func (c16Tagger) Name() string { return "tagger" }
+func (c16Tagger) PostAccept(s erpc.PreSession) *erpc.Status {
+	s.SetID("conn-" + s.RemoteAddr().String())
+	return nil
 }
